@@ -206,6 +206,11 @@ pub struct Sim {
     /// The apply worker, not the Ready loop, tells the library that an installed snapshot is
     /// applied (`advance_apply_to(snapshot index)` comes later, like for entries).
     pub late_snapshot_report: bool,
+    /// The application's state machine store is durable on its own (fsynced at every apply),
+    /// independently of the raft log store: after a crash of a leader that applied entries before
+    /// persisting them (`max_apply_unpersisted_log_limit > 0`) the node restarts with
+    /// `Config::applied` beyond its stable log - the library's "restart window".
+    pub app_state_always_durable: bool,
 }
 
 thread_local! {
@@ -252,6 +257,7 @@ impl Sim {
             deadline: Some(std::time::Instant::now() + std::time::Duration::from_secs(30)),
             timed_out: false,
             late_snapshot_report: false,
+            app_state_always_durable: false,
         }
     }
 
@@ -1449,7 +1455,27 @@ impl Sim {
                 let st = self.nodes[*v].stage;
                 self.log(format!("n{} CRASH at {:?}", self.nodes[*v].id, st));
                 self.mon.note_crash_point(st);
+                let app = self.nodes[*v].store.with(|s| (s.vol.applied, s.vol.sm, s.vol.conf.clone()));
                 self.kill(*v);
+                if self.app_state_always_durable {
+                    let ahead = self.nodes[*v].store.with_mut(|s| {
+                        if app.0 > s.dur.applied && app.0 > s.dur.last_index() {
+                            s.dur.applied = app.0;
+                            s.dur.sm = app.1;
+                            s.dur.conf = app.2.clone();
+                            s.vol.applied = app.0;
+                            s.vol.sm = app.1;
+                            s.vol.conf = app.2.clone();
+                            true
+                        } else {
+                            false
+                        }
+                    });
+                    if ahead {
+                        self.mon.stats.inc("crash.applied_state_ahead_of_stable_log");
+                        self.log(format!("n{} application state (applied {}) survives ahead of the stable log", self.nodes[*v].id, app.0));
+                    }
+                }
                 true
             }
             Action::CrashMidSend(v) => {
@@ -1683,6 +1709,18 @@ impl Sim {
                     v,
                     Op::Knob("set_max_apply_unpersisted_log_limit"),
                     |raw| raw.raft.set_max_apply_unpersisted_log_limit(lim),
+                    |_| Res::Unit,
+                )
+                .is_some()
+            }
+            7 => {
+                // group commit switched at run time (any role; groups may be unassigned)
+                let on = val % 2 == 1;
+                self.mon.stats.inc("app.group_commit_toggles");
+                self.call(
+                    v,
+                    Op::Knob("enable_group_commit"),
+                    |raw| raw.raft.enable_group_commit(on),
                     |_| Res::Unit,
                 )
                 .is_some()
